@@ -50,6 +50,9 @@ func (c *CompileErrorList) Error() string {
 				if idx >= len(line) { // because newline was erased
 					idx = len(line) - 1
 				}
+				if idx < 0 { // nothing of the line is left (columns count the "\r" of a CRLF line end, the lines no longer have it)
+					idx = 0
+				}
 				after = line[idx:]
 				line = line[:idx]
 			}
